@@ -243,6 +243,11 @@ func (run *iRun) open(dir, from string) error {
 		if err := simfs.CopyTree(from, dir); err != nil {
 			panic(core.InfraPanic("copy tree: " + err.Error()))
 		}
+		// mergeset transaction files name their parts by absolute path; a restart on a
+		// fresh path relocates them (a real restart reuses the path)
+		if err := simfs.RelocateTxn(dir, filepath.Dir(dir), dir); err != nil {
+			panic(core.InfraPanic("relocate: " + err.Error()))
+		}
 	} else if err := os.MkdirAll(dir, 0o755); err != nil {
 		panic(core.InfraPanic("mkdir: " + err.Error()))
 	}
